@@ -278,7 +278,7 @@ var opsByMode = map[string][]string{
 	"C15": {"Mask", "Mask", "Mask", "MaskOccurences", "MaskOccurences", "MaskUnique", "Clone"},
 	"C14": {"MaxCharStats", "MaxCharStats", "Consensus", "Consensus", "CharStats", "CharStatsSite", "CharStatsSeq", "UniqueCharacters", "Entropy", "Entropy",
 		"NbVariableSites", "InformativeSites", "AvgAllelesPerSite", "Pssm", "CountDifferences", "NumGapsUnique", "NumMutationsUnique",
-		"NumMutRef", "ListMutRef", "CountProfile", "SetSequenceChar"},
+		"NumMutRef", "ListMutRef", "CountProfile", "SetSequenceChar", "SiteConservation", "SiteConservation", "AlphabetInfo"},
 	"C10": {"ShuffleSequences", "ShuffleSites", "Swap", "SimulateRogue", "BuildBootstrap", "Sample", "RandSubAlign", "RandSubAlign", "Mutate",
 		"AddGaps", "Recombine", "Rarefy"},
 	"C19": {"Clone", "CloneSeqBag", "SubAlign", "SelectSites", "Transpose", "BuildBootstrap", "Consensus", "RandSubAlign", "Unalign", "Sample",
@@ -689,6 +689,16 @@ func (g *heapGen) args(h *heapRun, op string, recv int, o *obj) *Step {
 			return nil
 		}
 		a["site"] = f64(g.boundary(L))
+	case "SiteConservation":
+		if !needAl() || n == 0 {
+			return nil
+		}
+		a["site"] = f64(g.boundary(L))
+		if g.rng.Intn(2) == 0 && L > 0 {
+			a["site"] = f64(g.rng.Intn(L))
+		}
+	case "AlphabetInfo":
+		a["chars"] = toIface(s2i("AaCQqN-X*U"))
 	case "CharStatsSeq":
 		a["idx"] = f64(g.boundary(n))
 	case "Entropy":
